@@ -142,7 +142,7 @@ static int c_to_produce, c_timeouts, c_okwaits, c_bound;
 /* family condq ("long queues"): producers hold a token back until several consumers are inside a wait, timed waits
  * use staggered deadlines so that the head, middle nodes and the tail of a long wait-list time out while signals and
  * further enqueues (timed and untimed, ULT and external) are interleaved */
-static int c_many, c_nwait, c_nconsumers_left, c_maxwait;
+static int c_many, c_nwait, c_nconsumers_left, c_maxwait, c_recursive;
 /* lost-signal accounting: "sure" waiters are inside an untimed wait or a timed wait whose deadline is out of reach; a
  * signal issued by the holder of CM0 while such a waiter is not yet promised a wake-up must wake one (broadcast: all) */
 static int c_nsure, c_required, c_succ_sure;
@@ -288,6 +288,12 @@ static void cond_body(actor *a)
                 }
             }
             VSA_CHECK(++c_holder == 1, "cond: wait returned without exclusive ownership of the mutex (%d holders)", c_holder);
+            if (c_recursive) {
+                int rt = ABT_mutex_trylock(CM0);
+                VSA_CHECK(rt == ABT_SUCCESS, "cond: the wait returned but a nested lock of the recursive mutex by the same caller fails (%d): the caller does not own it", rt);
+                if (rt == ABT_SUCCESS)
+                    ABT_OK(ABT_mutex_unlock(CM0));
+            }
             c_nwait--;
             if (sure) {
                 c_nsure--;
@@ -313,7 +319,17 @@ static void cond_body(actor *a)
 static void cond_setup(int nact)
 {
     ABT_OK(ABT_cond_create(&C0));
-    ABT_OK(ABT_mutex_create(&CM0));
+    c_recursive = sc_rnd(3) == 0;
+    if (c_recursive) {
+        /* a recursive mutex: the waiter must own it again when the wait returns (a nested lock succeeds) */
+        ABT_mutex_attr ma;
+        ABT_OK(ABT_mutex_attr_create(&ma));
+        ABT_OK(ABT_mutex_attr_set_recursive(ma, ABT_TRUE));
+        ABT_OK(ABT_mutex_create_with_attr(ma, &CM0));
+        ABT_OK(ABT_mutex_attr_free(&ma));
+    } else {
+        ABT_OK(ABT_mutex_create(&CM0));
+    }
     ABT_OK(ABT_mutex_create(&CM1));
     vs_name_ex(ABTI_cond_get_ptr(C0), sizeof(ABTI_cond), VS_SNAP, "C0");
     vsa_watch_waitlist(ABTI_cond_get_ptr(C0), &ABTI_cond_get_ptr(C0)->waitlist);
